@@ -5,6 +5,7 @@ IEEE instantiation of the model and prints the same canonical observation lines.
 import RubatoModel.SincTable
 import RubatoModel.Fft
 import RubatoModel.Wrappers
+import RubatoModel.Kernels
 
 namespace Rubato.Driver
 open Rubato
@@ -299,7 +300,7 @@ def opAsync (ofF : Float → σ) (s : AState Float σ) (consumed : Nat) (op : St
   | "reset" =>
     let s' := s.reset
     (s', 0, s!"ok | {gettersA s'} | a0", false)
-  | "get" => (s, consumed, s!"ok | {gettersA s}", false)
+  | "get" => (s, consumed, s!"ok | {gettersA s} | a0", false)
   | _ => bad
 
 def newAsync (kind : AKind) (p : List String) : Option (Except CErr (AState Float σ)) :=
@@ -399,12 +400,22 @@ def opFft (s : FState Unit Unit) (consumed : Nat) (op : String) (t : List String
         | none => bad
       | _, _ => bad
     | _ => bad
-  | "ratio" | "rel" => (s, consumed, s!"{RErr.syncNotAdjustable.render} | {gettersF s} | a0", false)
-  | "chunk" => (s, consumed, s!"{RErr.chunkNotAdjustable.render} | {gettersF s} | a0", false)
+  | "ratio" | "rel" =>
+    let (s', r) := s.setRatio
+    let st := match r with
+      | .ok () => "ok"
+      | .error e => e.render
+    (s', consumed, s!"{st} | {gettersF s'} | a0", false)
+  | "chunk" =>
+    let (s', r) := s.setChunk 0
+    let st := match r with
+      | .ok () => "ok"
+      | .error e => e.render
+    (s', consumed, s!"{st} | {gettersF s'} | a0", false)
   | "reset" =>
     let s' := s.reset da u ()
     (s', 0, s!"ok | {gettersF s'} | a0", false)
-  | "get" => (s, consumed, s!"ok | {gettersF s}", false)
+  | "get" => (s, consumed, s!"ok | {gettersF s} | a0", false)
   | _ => bad
 
 def newFft (kind : FKind) (p : List String) : Option (Except CErr (FState Unit Unit)) :=
@@ -417,6 +428,65 @@ def newFft (kind : FKind) (p : List String) : Option (Except CErr (FState Unit U
     if sub = 0 then none else some (FState.init da (unitUnit 0) () kind ri ro c sub n)
   | _, _ => none
 
+
+/-! ### kernel protocol (C15): `kdot <T> <kind> <length> <index> <wave,hex,…> <sinc,hex,…>` -/
+
+instance : OfNat Float32 0 := ⟨(0.0 : Float32)⟩
+
+def parseHexList (s : String) : Option (List Nat) :=
+  (s.splitOn ",").foldr (fun x acc => match acc, parseHex x with
+    | some l, some v => some (v :: l)
+    | _, _ => none) (some [])
+
+def kernLine (t : List String) : String :=
+  match t with
+  | [ty, kind, len, idx, wave, sinc] =>
+    match len.toNat?, idx.toNat?, parseHexList wave, parseHexList sinc with
+    | some length, some index, some w, some sv =>
+      if ty == "f64" then
+        let wv : List Float := w.map fun n => Float.ofBits n.toUInt64
+        let sc : List Float := sv.map fun n => Float.ofBits n.toUInt64
+        let r : Option Float := match kind with
+          | "scalar" => some (Kern.scalar wv index sc)
+          | "avx" => some (Kern.avxF64 wv index (Kern.pack 4 sc) length)
+          | "sse" => some (Kern.sseF64 wv index (Kern.pack 2 sc) length)
+          | "neon" => some (Kern.neonF64 wv index (Kern.pack 2 sc) length)
+          | _ => none
+        match r with
+        | some v => "v " ++ hexNat v.toBits.toNat
+        | none => "bad-op"
+      else if ty == "f32" then
+        let wv : List Float32 := w.map fun n => Float32.ofBits n.toUInt32
+        let sc : List Float32 := sv.map fun n => Float32.ofBits n.toUInt32
+        let r : Option Float32 := match kind with
+          | "scalar" => some (Kern.scalar wv index sc)
+          | "avx" => some (Kern.avxF32 wv index (Kern.pack 8 sc) length)
+          | "sse" => some (Kern.sseF32 wv index (Kern.pack 4 sc) length)
+          | "neon" => some (Kern.neonF32 wv index (Kern.pack 4 sc) length)
+          | _ => none
+        match r with
+        | some v => "v " ++ hexNat v.toBits.toNat
+        | none => "bad-op"
+      else "bad-op"
+    | _, _, _, _ => "bad-op"
+  | _ => "bad-op"
+
+/-- `ktab <T> <len> <osf> <fcut hex f32> <win>`: the model's table (`makeSincs`), row-major [sub][k] -/
+def ktabLine (t : List String) : String :=
+  match t with
+  | [ty, len, osf, fc, w] =>
+    match len.toNat?, osf.toNat?, hexF32 fc, w.toNat?.bind Window.ofCode with
+    | some len, some osf, some fc, some w =>
+      if ty == "f64" then
+        let tb : Array (Array Float) := makeSincs (ρ := Float) len osf fc w
+        "t " ++ ",".intercalate (tb.toList.flatMap fun r => r.toList.map fun x => hexNat x.toBits.toNat)
+      else if ty == "f32" then
+        let tb : Array (Array Float32) := makeSincs (ρ := Float) len osf fc w
+        "t " ++ ",".intercalate (tb.toList.flatMap fun r => r.toList.map fun x => hexNat x.toBits.toNat)
+      else "bad-op"
+    | _, _, _, _ => "bad-op"
+  | _ => "bad-op"
+
 /-! ### one protocol line -/
 
 def setSlot (ss : Sess) (i : Nat) (v : Option Slot) : Sess :=
@@ -428,6 +498,8 @@ def step (ss : Sess) (line : String) : Sess × String :=
   match t with
   | [] => (ss, "bad-op")
   | "hist" :: _ => ({ slots := #[], dead := false }, "hist")
+  | "kdot" :: rest => (ss, kernLine rest)
+  | "ktab" :: rest => (ss, ktabLine rest)
   | slot :: op :: rest =>
     if ss.dead then (ss, "skip") else
     match slot.toNat? with
